@@ -144,7 +144,7 @@ def main(argv=None):
     r['why'] = why
     bounded_runs.append(r)
     if r.get('error'):
-      undecided.append(f'bounded {name}: {r["error"][:300]}')
+      undecided.append(f'bounded {name}: {r["error"][-400:]}')
       return None
     for v in r.get('violations', []):
       v['check'] = name
